@@ -5,7 +5,7 @@ from numbers import Real
 import numpy as np
 import ot
 from sklearn.metrics import pairwise_kernels, pairwise_distances
-from sklearn.metrics.pairwise import PAIRWISE_KERNEL_FUNCTIONS, PAIRED_DISTANCES
+from sklearn.metrics.pairwise import PAIRWISE_KERNEL_FUNCTIONS, PAIRWISE_DISTANCE_FUNCTIONS
 from sklearn.utils._param_validation import StrOptions, Interval
 
 from .._constraints import constraint_params
@@ -191,7 +191,7 @@ class WassersteinGEMINI(_GEMINI, ABC):
     @constraint_params(
         {
             "ovo": [bool],
-            "metric": [StrOptions(set(list(PAIRED_DISTANCES) + ["precomputed"]))],
+            "metric": [StrOptions(set(list(PAIRWISE_DISTANCE_FUNCTIONS) + ["precomputed"])), callable],
             "metric_params": [dict, None],
             "epsilon": [Interval(Real, 0, 1, closed="neither")]
         }
